@@ -6,7 +6,7 @@ N=$1; P=$2; T=${3:-quick}
 WT=/var/tmp/sr_${N}_$P
 rm -rf $WT; git -C /repo worktree prune
 git -C /repo worktree add -q --detach $WT HEAD || exit 2
-( cd $WT && git apply /verif/seeded/$N/patch.diff ) || { echo "seed=$N PATCH-FAILED"; git -C /repo worktree remove --force $WT; exit 2; }
+( cd $WT && git apply ${SEEDPATCH:-/verif/seeded/$N/patch.diff} ) || { echo "seed=$N PATCH-FAILED"; git -C /repo worktree remove --force $WT; exit 2; }
 cd /verif
 START=$(date +%s)
 OUT=/var/tmp/sr_out_${N}_$P.txt
